@@ -13,6 +13,13 @@
         item = T <tag> | E <tag> <size> <A|N|S> <frag> <raw JSON text of the value|->
     result = (R <res> (N 0 | L <escaped log> <cut>) <exceeded>)… (ok | panic:<kind> | fatal)
 
+    c15.pipe <nprocs> <negate> <max> <startRe> <contRe> <nstreams> (<src> <name> <n> item…)…
+        item = P | E <id> <startOK> <contOK> <tree>
+    result = <ncalls> call… <nstreams> (<nout> <tree>…)… ok
+        call = <instance> (T <tag> | E <id>) R <res> <nprop> (<tag> <tree>)… (N | E <tag> <tree>)
+    (a real pipeline run: calls of all join instances in one global order, then what arrived at
+     the output per stream; tag = index of the stream in the case)
+
   The regular expressions (`c15.join`) and template names (`c15.jt`) are for the harness only:
   the model sees the oracle bits the harness computed with them.
 -/
@@ -164,6 +171,80 @@ def encKOut (o : K8s.Out) : String :=
      | none => ["N", "0"]
      | some l => ["L", Hex.enc l, ofBool o.cut]) ++ [ofBool o.exceeded])
 
+/-! ### real-pipeline traces -/
+
+/-- the events of the case: id ↦ event (tag = stream index) -/
+def pPipeItem (tag : Nat) : P (Option (Nat × Ev))
+  | "P" :: r => some (none, r)
+  | "E" :: r => do
+    let (id, r) ← pNat r
+    let (s, r) ← pBool r
+    let (c, r) ← pBool r
+    let (tr, r) ← pTree r
+    pure (some (id, ⟨tag, tr, s, c⟩), r)
+  | _ => none
+
+def pPipeStreams : Nat → Nat → P (List (List (Nat × Ev)))
+  | 0, _, ts => some ([], ts)
+  | n+1, tag, ts => do
+    let (_, r) ← pNat ts
+    let (_, r) ← pBytes r
+    let (items, r) ← pCounted (pPipeItem tag) r
+    let (rest, r) ← pPipeStreams n (tag + 1) r
+    pure (items.filterMap id :: rest, r)
+
+structure PCall where
+  inst : Nat
+  inp  : In
+  id   : Option Nat
+  out  : Out
+
+def lookupEv (evs : List (Nat × Ev)) (id : Nat) : Option Ev :=
+  (evs.find? (·.1 == id)).map (·.2)
+
+def pPCall (evs : List (Nat × Ev)) : P PCall := fun ts => do
+  let (inst, r) ← pNat ts
+  match r with
+  | "T" :: r => do
+    let (t, r) ← pNat r
+    let (o, r) ← pOut r
+    pure (⟨inst, .timeout t, none, o⟩, r)
+  | "E" :: r => do
+    let (id, r) ← pNat r
+    let e ← lookupEv evs id
+    let (o, r) ← pOut r
+    pure (⟨inst, .ev e, some id, o⟩, r)
+  | _ => none
+
+def pTrees : P (List JTree) := pCounted pTree
+
+def encIn (c : PCall) : String :=
+  match c.inp, c.id with
+  | .timeout t, _ => s!"T {t}"
+  | .ev _, some id => s!"E {id}"
+  | .ev _, none => "E ?"
+
+/-- replay the calls in their global order, one join state per instance -/
+def replay (cfg : Cfg) : List (Nat × St) → List PCall → List String × Bool
+  | _, [] => ([], true)
+  | sts, c :: r =>
+    let st := ((sts.find? (·.1 == c.inst)).map (·.2)).getD St.init
+    match step cfg st c.inp with
+    | .error p => ([toString c.inst, encIn c, panicTok p], false)
+    | .ok (st', o) =>
+      let (rest, ok) := replay cfg ((c.inst, st') :: sts.filter (·.1 != c.inst)) r
+      (toString c.inst :: encIn c :: encOut o :: rest, ok)
+
+def treesEq : List JTree → List JTree → Bool
+  | [], [] => true
+  | a :: as, b :: bs => a.toToks == b.toToks && treesEq as bs
+  | _, _ => false
+
+def instances (calls : List PCall) : List Nat := (calls.map (·.inst)).eraseDups
+
+def streamIds (calls : List PCall) (tag : Nat) : List Nat :=
+  calls.filterMap (fun c => if SpecC15.tagOf c.inp == tag then c.id else none)
+
 def handle (cmd : String) (args impl : List String) : Option (String × String) :=
   match cmd with
   | "c15.join" => do
@@ -216,6 +297,41 @@ def handle (cmd : String) (args impl : List String) : Option (String × String) 
             != SpecC15K8s.contentIn items then "loss"
         else "ok"
       | none => "bad-impl"
+    pure (m, p)
+  | "c15.pipe" => do
+    let (_, r) ← pNat args
+    let (neg, r) ← pBool r
+    let (max, r) ← pNat r
+    let (_, r) ← pBytes r
+    let (_, r) ← pBytes r
+    let (ns, r) ← pNat r
+    let (streams, r) ← pPipeStreams ns 0 r
+    if r ≠ [] then none
+    let cfg : Cfg := ⟨[str "log"], max, neg⟩
+    let evs := streams.flatten
+    match impl with
+    | ["stuck"] => pure ("-", "stuck")
+    | _ =>
+    let (calls, r) ← pCounted (pPCall evs) impl
+    let (nso, r) ← pNat r
+    let (outs, r) ← pMany pTrees nso r
+    if r ≠ ["ok"] then none
+    -- model: every instance replayed through Join.step; outputs per stream from the spec
+    let (toks, ok) := replay cfg [] calls
+    let tags := List.range ns
+    let perStream := tags.map (fun t => calls.filterMap (fun c => if SpecC15.tagOf c.inp == t then some c.inp else none))
+    let specOuts := perStream.map (fun items => (SpecC15.spec cfg items).map (·.root))
+    let m := if ok then
+        unwords ([toString calls.length] ++ toks ++ [toString ns] ++
+          specOuts.map (fun o => unwords (toString o.length :: o.map JTree.enc)) ++ ["ok"])
+      else unwords ([toString calls.length] ++ toks)
+    -- property oracle on the observed trace
+    let views := (instances calls).map (fun i => (calls.filter (·.inst == i)).map (·.inp))
+    let hyps := views.all (fun v => SpecC15.coherent cfg none v && SpecC15.timely cfg false v)
+    let order := (tags.zip streams).all (fun (t, evs) => streamIds calls t == evs.map (·.1))
+    let outsOK := nso == ns && (outs.zip specOuts).all (fun (a, b) => treesEq a b)
+    let p := if !hyps then "fail:hypothesis" else if !order then "fail:order"
+             else if !outsOK then "fail:output" else "ok"
     pure (m, p)
   | _ => none
 
